@@ -1,3 +1,4 @@
+import LzmaVerif.Proofs.Lzma2
 import LzmaVerif.Proofs.RcRoundtrip
 import LzmaVerif.Proofs.LoopRt
 /-!
@@ -195,5 +196,28 @@ theorem window_move_keeps_position_bits (k : Nat) (hk : k ≤ 4) (pos x : Nat) (
 
 /-- the alignment is necessary: with an 8-byte alignment a move by 8 flips bit 3 of the position -/
 example : (24 - 8) % 2 ^ 4 ≠ 24 % 2 ^ 4 := by decide
+
+
+/-! ## LZMA2 framing
+
+`lzma2_roundtrip`: for every dictionary size, preset dictionary, properties byte with lc+lp ≤ 4 and every
+sequence of writer events (LZMA chunks continuing / resetting state / resetting properties / resetting
+the dictionary, stored chunks, independent restarts) that is valid from the writer's initial state and
+denotes `data` (`ChunksOk`; validated on every real stream by the executable `checkChunks`,
+`checkChunks_sound`), the chunk encoder succeeds and the chunk decoder returns exactly `data`, consumes
+exactly the encoder's bytes whatever follows, and recovers the chunk list. -/
+theorem lzma2_roundtrip (dict : Nat) (preset : Array Nat) (pb : Nat) (hpb : pb ≤ 224)
+    (hlclp : (paramsOfProps pb).lc + (paramsOfProps pb).lp ≤ 4)
+    (chunks : List Lzma2.Chunk) (data : List Nat)
+    (hok : Lzma2.ChunksOk pb chunks (Lzma2.initW dict preset pb) data) :
+    ∃ bytes, Lzma2.encodeChunks pb chunks (Lzma2.initW dict preset pb) [] = some bytes ∧
+      ∀ (rest : List Nat) (cap : Nat), data.length ≤ cap →
+        Lzma2.decode dict preset (bytes ++ rest) cap
+          = .ok { out := data.toArray, consumed := bytes.length, chunks := chunks } :=
+  Lzma2.lzma2_roundtrip dict preset pb hpb hlclp chunks data hok
+
+theorem lzma2_check_sound (pb : Nat) (chunks : List Lzma2.Chunk) (w : Lzma2.WState) (data : List Nat)
+    (h : Lzma2.checkChunks pb chunks w = some data) : Lzma2.ChunksOk pb chunks w data :=
+  Lzma2.checkChunks_sound pb chunks w data h
 
 end LzmaVerif.Props.C01
